@@ -330,6 +330,7 @@ def run_api(
     filter_setup=None,
     keep_raw=False,
     callbacks=None,
+    schema_loader=None,
 ):
     """Iterate `from_schema(schema, config).execute()` in this thread.
 
@@ -350,7 +351,10 @@ def run_api(
     raw = []
     with RecordingServer(script, dynamic=dynamic) as server:
         result.base_url = server.url
-        schema = schemathesis.openapi.from_dict(copy.deepcopy(doc))
+        if schema_loader is not None:
+            schema = schema_loader(copy.deepcopy(doc))
+        else:
+            schema = schemathesis.openapi.from_dict(copy.deepcopy(doc))
         schema.base_url = server.url
         if filter_setup is not None:
             schema = filter_setup(schema) or schema
